@@ -505,6 +505,34 @@ def config_writes(fn):
                 if s is NOCONST and isinstance(c.args[0], ast.Name):
                     s = sec_var.get(c.args[0].id)
                 out.append((s, const(c.args[1]), c.args[2], c))
+    # options written from a table: for k, v in {<const keys>: ...}.items(): config.set(section, k, <value of v>)
+    dlits = {n.targets[0].id: n.value for n in walk_local(fn) if isinstance(n, ast.Assign) and len(n.targets) == 1
+             and isinstance(n.targets[0], ast.Name) and isinstance(n.value, ast.Dict)}
+    for lp in [n for n in walk_local(fn) if isinstance(n, ast.For) and isinstance(n.target, ast.Tuple) and len(n.target.elts) == 2
+               and all(isinstance(e, ast.Name) for e in n.target.elts)]:
+        it = lp.iter
+        if not (isinstance(it, ast.Call) and isinstance(it.func, ast.Attribute) and it.func.attr == 'items' and not it.args):
+            continue
+        d = it.func.value
+        if isinstance(d, ast.Name):
+            d = dlits.get(d.id)
+        if not (isinstance(d, ast.Dict) and d.keys and all(k is not None and isinstance(const(k), str) for k in d.keys)):
+            continue
+        kv, vv = lp.target.elts[0].id, lp.target.elts[1].id
+        for c in calls_in(lp):
+            if isinstance(c.func, ast.Attribute) and c.func.attr == 'set' and len(c.args) == 3 and 'config' in U(c.func.value) \
+                    and isinstance(c.args[1], ast.Name) and c.args[1].id == kv:
+                s = const(c.args[0])
+                if s is NOCONST and isinstance(c.args[0], ast.Name):
+                    s = sec_var.get(c.args[0].id)
+                for k, v in zip(d.keys, d.values):
+                    # the value expression with the loop variable replaced by the table entry
+                    import copy as _cp
+
+                    class T(ast.NodeTransformer):
+                        def visit_Name(self, n_):
+                            return _cp.deepcopy(v) if n_.id == vv and isinstance(n_.ctx, ast.Load) else n_
+                    out.append((s, const(k), T().visit(_cp.deepcopy(c.args[2])), c))
     return out
 
 
